@@ -16,7 +16,7 @@ func init() {
 			"R2 tiling by value identity in nextToken: every cursor-advancing call (skipSpaces, skipComment, consumeToken/consumeFieldToken) is bracketed by two loads of Lexer.pos that are the bounds of exactly one slice of Buffer stored into Space / a comment's Raw / Token.Raw, with exactly that one advancing call between the loads; Pos/End stored next to each slice are loads in the same cursor epoch as its bounds. Cursor moves only inside those calls (R1), so the slices tile the input. " +
 			"R3 the eof() arm of consumeToken only sets Kind = <eof> and advances nothing. R4 every other return path of consumeToken passes a cursor advance; lexer loops make progress (C03/R4, shared). " +
 			"Does not decide: that a computed advance is strictly positive, that Space holds only whitespace (numeric / character facts).",
-		Rules: []ruleFn{ruleC13R1, ruleC13R4, ruleC13R3, ruleC03R4, ruleC14R9},
+		Rules: []ruleFn{ruleC13R1, ruleC13R4, ruleC13R3, ruleC03R4, ruleC14R9, ruleC13R5},
 	})
 }
 
@@ -751,5 +751,68 @@ func ruleC13R3(w *World, r *Report) {
 	}
 	if !leak {
 		r.ok(rule, "consumeToken progress", w.pos(fn.Pos()), "every non-eof return path passes skip/skipN (directly or in a token reader)")
+	}
+}
+
+// ruleC13R5: every token starts from nothing. nextToken resets the current token before it records the new one; a
+// field carried over from the previous token (a Comments slice cut to length 0 to reuse its array) makes two tokens
+// share memory: the token a caller kept is rewritten by the next call.
+func ruleC13R5(w *World, r *Report) {
+	const rule = "C13/R5"
+	r.rule(rule, "the whole-struct store to Lexer.Token at the start of (*Lexer).nextToken stores the zero Token (a constant, or a literal none of whose fields is set), before anything of the new token is recorded; there is exactly one such store in the lexer", 1)
+	fn := w.fn(w.Mem, "(*Lexer).nextToken")
+	if fn == nil {
+		r.errorf("(*Lexer).nextToken not found")
+		return
+	}
+	n := 0
+	for _, f := range w.ModFns {
+		if fnPkgPath(f) != modRoot || f.Blocks == nil || f.Signature.Recv() == nil || !w.isLexerPtr(f.Signature.Recv().Type()) {
+			continue
+		}
+		for _, b := range f.Blocks {
+			for _, in := range b.Instrs {
+				st, ok := in.(*ssa.Store)
+				if !ok {
+					continue
+				}
+				fa, ok := st.Addr.(*ssa.FieldAddr)
+				if !ok || fieldAddrName(fa) != "Token" || !w.isLexerPtr(fa.X.Type()) {
+					continue
+				}
+				if _, isAlloc := fa.X.(*ssa.Alloc); isAlloc {
+					continue // Clone's copy
+				}
+				n++
+				construct := fmt.Sprintf("reset of Lexer.Token in %s", funcName(f))
+				zero := false
+				why := ""
+				switch v := st.Val.(type) {
+				case *ssa.Const:
+					zero = v.Value == nil
+				case *ssa.UnOp:
+					if al, ok := v.X.(*ssa.Alloc); ok && v.Op == token.MUL {
+						fields := allocFieldStores(al)
+						zero = len(fields) == 0
+						for fname := range fields {
+							why = "the literal sets " + fname
+						}
+					}
+				}
+				switch {
+				case f != fn:
+					r.bad(rule, construct, w.pos(st.Pos()), "the current token is overwritten as a whole outside nextToken")
+				case !zero:
+					r.bad(rule, construct, w.pos(st.Pos()), "the token is not reset to the zero value ("+why+"): what is carried over is shared between the previous token — which the caller may have kept or cloned — and the new one")
+				case b != fn.Blocks[0]:
+					r.bad(rule, construct, w.pos(st.Pos()), "the reset is not in the entry block of nextToken")
+				default:
+					r.ok(rule, construct, w.pos(st.Pos()), "zero Token stored at entry")
+				}
+			}
+		}
+	}
+	if n == 0 {
+		r.errorf("no whole-struct store to Lexer.Token found in nextToken")
 	}
 }
